@@ -14,7 +14,7 @@ META = {
 def run(ctx):
     # edit half: every transition of scenario 3 on the mutable worlds
     mworld.run_family(
-        ctx, "C37", scenarios=[3], impls=['basicmutable', 'overlay-basic', 'overlay-mutable', 'overlay-empty'],
+        ctx, "C37", scenarios=[3, 10], impls=['basicmutable', 'overlay-basic', 'overlay-mutable', 'overlay-empty'],
         sections=['result-overaccept', 'validity'], finish=False,
         focused=(150, 2000))
     # build half: every source of StaticWorld scenario 1 (valid and invalid features of every class) built as a basic
